@@ -39,6 +39,7 @@ def modelled : List (String × String × String × Reach) := [
   ("f_string.py", "OuterFString.__str__", "raise UnstableMinification", .selfCheck),
   ("f_string.py", "OuterFString.__str__", "raise UnstableMinification", .selfCheck),
   ("f_string.py", "OuterFString.__str__", "raise ValueError", .fstring),
+  ("f_string.py", "Str.__str__", "raise", .fstring),            -- re-raise of a failed candidate before PEP 701 (caught by the search)
   ("f_string.py", "Str.__str__", "raise ValueError", .fstring),
   ("f_string.py", "Str.__str__", "raise ValueError", .fstring),
   ("f_string.py", "Str.__str__", "raise ValueError", .fstring),
